@@ -709,3 +709,87 @@ func entryReachesWithout(fn *ssa.Function, to ssa.Instruction, via map[ssa.Instr
 	}
 	return scan(fn.Blocks[0])
 }
+
+// ---- error chains -----------------------------------------------------------
+
+// SucceededCalls returns the calls whose error result is known to be nil at
+// block b, following "if err == nil { err = next() }" chains: a nil fact about
+// a (non-loop) phi of errors holds only along the incoming edges on which the
+// incoming value is not already known non-nil, and on such an edge the
+// incoming value and everything known nil there are nil too.
+func (ff *FuncFacts) SucceededCalls(b *ssa.BasicBlock) map[*ssa.Call]bool {
+	out := map[*ssa.Call]bool{}
+	for _, f := range ff.NC(b) {
+		if x, isNil, ok := FactNilCmp(f); ok && isNil && isErrorType(x.Type()) {
+			for c := range ff.nilExpand(x, map[ssa.Value]bool{}, 0) {
+				out[c] = true
+			}
+		}
+	}
+	return out
+}
+
+func (ff *FuncFacts) nilExpand(x ssa.Value, seen map[ssa.Value]bool, depth int) map[*ssa.Call]bool {
+	out := map[*ssa.Call]bool{}
+	x = unspill(x)
+	if seen[x] || depth > 12 {
+		return out
+	}
+	seen[x] = true
+	if c, _ := callOf(x); c != nil {
+		out[c] = true
+		return out
+	}
+	ph, ok := x.(*ssa.Phi)
+	if !ok {
+		return out
+	}
+	blk := ph.Block()
+	var results []map[*ssa.Call]bool
+	for i, e := range ph.Edges {
+		pred := blk.Preds[i]
+		if isBackEdge(pred, blk) {
+			return out // loop phi: nothing known
+		}
+		fs := append([]Fact{}, ff.NC(pred)...)
+		if ef, ok := edgeFact(pred, blk); ok {
+			fs = append(fs, ef)
+		}
+		infeasible := false
+		for _, f := range fs {
+			if y, isNil, ok := FactNilCmp(f); ok && !isNil && unspill(y) == unspill(e) {
+				infeasible = true
+			}
+		}
+		if c, ok := e.(*ssa.Const); ok && !c.IsNil() {
+			infeasible = true
+		}
+		if infeasible {
+			continue
+		}
+		r := ff.nilExpand(e, seen, depth+1)
+		for _, f := range fs {
+			if y, isNil, ok := FactNilCmp(f); ok && isNil && isErrorType(y.Type()) {
+				for c := range ff.nilExpand(y, seen, depth+1) {
+					r[c] = true
+				}
+			}
+		}
+		results = append(results, r)
+	}
+	if len(results) == 0 {
+		return out
+	}
+	for c := range results[0] {
+		all := true
+		for _, r := range results[1:] {
+			if !r[c] {
+				all = false
+			}
+		}
+		if all {
+			out[c] = true
+		}
+	}
+	return out
+}
